@@ -112,6 +112,8 @@ def candidates(it, s):
     pool = sorted((c, ch) for c in s.node_side_cps() for ch in s.children_cp(c))
     for k in upto(len(pool)):
         out.append(({"op": "remove_child", "k": k, "h": k % 2}, [pool[k][1]]))
+        # the same through the port's stored handle after the sub-interface was renamed through another handle
+        out.append(({"op": "remove_child", "k": k, "h": 0, "rename_first": True}, [pool[k][1]]))
     dis = []
     for svc in s.top_services():
         for sp in s.cps_of_service(svc):
